@@ -85,6 +85,7 @@ const (
 	compoundHeaderOverhead = 2   // Assumed header overhead
 	compoundOverhead       = 2   // Assumed overhead per entry in compoundHeader
 	userMsgOverhead        = 1
+	crcHeaderOverhead      = 5                     // hasCrcMsg type byte plus the 4 byte checksum
 	blockingWarning        = 10 * time.Millisecond // Warn if a UDP packet takes this long to process
 	maxPushStateBytes      = 20 * 1024 * 1024
 	maxPushStateNodes      = 1024 * 1024      // Each requires conservatively  ~20 bytes when encoded
@@ -801,8 +802,11 @@ func (m *Memberlist) encodeAndSendMsg(a Address, msgType messageType, msg any) e
 // sendMsg is used to send a message via packet to another host. It will
 // opportunistically create a compoundMsg and piggy back other broadcasts.
 func (m *Memberlist) sendMsg(a Address, msg []byte) error {
-	// Check if we can piggy back any messages
-	bytesAvail := m.config.UDPBufferSize - len(msg) - compoundHeaderOverhead - labelOverhead(m.config.Label)
+	// Check if we can piggy back any messages. The message itself becomes an
+	// entry of the compound message, and the checksum header may be added
+	// below us, so both have to come out of the budget.
+	bytesAvail := m.config.UDPBufferSize - len(msg) - compoundHeaderOverhead - compoundOverhead -
+		crcHeaderOverhead - labelOverhead(m.config.Label)
 	if m.config.EncryptionEnabled() && m.config.GossipVerifyOutgoing {
 		bytesAvail -= encryptOverhead(m.encryptionVersion())
 	}
